@@ -20,7 +20,7 @@ TEXT = {
             "with the listed right-hand sides; small-step interpreter machine checked against the big-step semantics.", "6, 14.2"),
     "C03": (COMMON + "The declarative precedence relation (Unparse) and the Pratt machine (Parser) are proved to agree on every tree with <= 3 operators; "
             "minimal, fully parenthesised and mixed-whitespace spellings are replayed on documents that separate alternative groupings.", "6, 14.2"),
-    "C04": (COMMON + "Pratt machine = ABNF chart recogniser on ALL token strings up to length 4/5; every token string and single-token mutants of "
+    "C04": (COMMON + "Pratt machine = ABNF chart recogniser on ALL token strings up to length 4/5 (and up to 6/7 over the nesting tokens); every token string, every number spelling and single-token mutants of "
             "sentences are given to the real Compile; strings derived only by the deviation production D1 are the one known finding. The explicit-stack "
             "parser machine (ParserM) refines the Pratt specification and is bound to parser.go by Trace_Parse (real nud/led sequences).", "6, 14.1, 14.2"),
     "C05": (COMMON + "Totality of the lexer / parser / evaluator models on short inputs (no panic status, no read past eof); exhaustive short strings over "
@@ -53,7 +53,7 @@ TEXT = {
             "the C01/C02/C09 families.", "6, 14.2"),
     "C17": (COMMON + "Offsets in range on the lexer / parser models; the Compile / SyntaxError / HighlightLocation / MustCompile contract checked on every "
             "short string, token string and identifier context; predicted offsets compared as drift.", "6, 14.2"),
-    "C18": (COMMON + "GoValues.tla: typed values and their JSON abstraction J with the field rule; navigational expressions on 10 typed documents "
+    "C18": (COMMON + "GoValues.tla: typed values (structs, pointers, typed slices, embedded structs) and their JSON abstraction J with the field rule; navigational expressions on 13 typed documents "
             "compared with the spec on J(g); every function on typed values must not panic.", "6, 14.2"),
     "C19": (COMMON + "Jpgo.tla: phases and failure sites with invariants and termination; the built binary is run on generated (expression, input, "
             "channel) triples.", "6, 14.2"),
